@@ -1,6 +1,6 @@
 """C06 — network shortest distances are the true minimum over permitted walks (tracklib/core/network.py)."""
 from fractions import Fraction
-from engine import Prop
+from engine import Prop, fbits, bitsf, close
 from props import netcommon as nc
 
 
@@ -65,7 +65,7 @@ class P(Prop):
     rule = ("every multigraph on <= 3 nodes with <= 2 edges as ordered edge lists (quick) and with 3 edges as multisets in shuffled order (thorough), "
             "weights {0,1,2}, orientations {-1,0,1}, self-loops and parallel edges included, node insertion order shuffled; random graphs to 12 nodes / 40 edges "
             "with integer and dyadic weights. Per graph: every ordered pair, cut-offs below/equal/above each distinct distance (a sample of them for the "
-            "large random graphs), all API forms. Plus random set/pop sequences on priority_dict alone (ties, lowered and raised priorities, pops on empty). "
+            "large random graphs), all API forms. Random graphs with float weights (model instantiated at Float, oracle in exact rationals, 1e-9 relative). Plus random set/pop sequences on priority_dict alone (ties, lowered and raised priorities, pops on empty). "
             "non-trivial = at least one ordered pair s != t is joined by a walk (graphs) / at least one pop (priority_dict)")
 
     def setup(self):
@@ -100,6 +100,16 @@ class P(Prop):
             allc = nc.cuts_for(dist)
             g["cuts"] = ["none"] + sorted({nc.tok(c) for c in rng.sample(allc, min(3, len(allc)))}, key=Fraction)
             out.append(dict(g, kind="rnd"))
+        # float weights: the same model instantiated at Float, oracle in exact rational arithmetic with a tolerance
+        for _ in range(400 if tier == "quick" else 6000):
+            g = nc.random_graph(rng, nmax=rng.choice([4, 8, 12]), emax=rng.choice([6, 20, 40]))
+            scale = rng.choice([1.0, 1e-3, 1e3])
+            for e in g["edges"]:
+                e[3] = 0.0 if rng.random() < 0.1 else rng.uniform(0, 10) * scale
+            ds = sorted({x for row in nc.floyd_warshall(g["n"], g["edges"]) for x in row if x is not None})
+            mids = [float((a + b) / 2) for a, b in zip(ds, ds[1:]) if b - a > Fraction(1, 10**6) * max(1, b)]
+            g["cuts"] = ["none"] + sorted(rng.sample(mids, min(2, len(mids))))
+            out.append(dict(g, kind="rnd-float"))
         # priority_dict on its own: random set / pop sequences with ties, stale entries (lowered and raised priorities), pops on empty
         for _ in range(1500 if tier == "quick" else 20000):
             nk = rng.randint(1, 6)
@@ -149,9 +159,23 @@ class P(Prop):
                     res.append(str(len(pd)))
         return {"res": res}
 
+    def impl_float(self, case):
+        n = case["n"]
+        with nc.time_limit(20):
+            net = nc.build_network(self.mods, case)
+            out = {"pairs": [], "lists": [], "all": []}
+            for c in case["cuts"]:
+                kw = {} if c == "none" else {"cut": c}
+                out["pairs"].append([[float(net.shortest_distance(s, t, **kw)) for t in range(n)] for s in range(n)])
+                out["lists"].append([[float(x) for x in net.shortest_distance(s, **kw)] for s in range(n)])
+                out["all"].append(sorted([k[0], k[1], float(v)] for k, v in net.all_shortest_distances(**kw).items()))
+        return out
+
     def impl(self, case):
         if case["kind"] == "pq":
             return self.impl_pq(case)
+        if case["kind"] == "rnd-float":
+            return self.impl_float(case)
         n = case["n"]
         edges = nc.expand(case)
         dist = nc.floyd_warshall(n, edges)          # only to choose the cut-offs
@@ -179,6 +203,15 @@ class P(Prop):
             init = ";".join("%d,%s" % (k, nc.tok(nc.num(p))) for k, p in case["init"]) or "_"
             ops = ";".join("p" if o[0] == "p" else "s,%d,%s" % (o[1], nc.tok(nc.num(o[2]))) for o in case["ops"]) or "_"
             return ["C06.pq %s %s" % (init, ops)]
+        if case["kind"] == "rnd-float":
+            es = ";".join("%d,%d,%d,%s,%d" % (i, a, b, fbits(w), o) for (i, a, b, w, o) in case["edges"]) or "_"
+            order = ",".join(map(str, case["order"]))
+            out = []
+            for c in case["cuts"]:
+                ct = "none" if c == "none" else fbits(c)
+                out += ["C06.fpairs %d %s %s" % (case["n"], es, ct), "C06.flists %d %s %s %s" % (case["n"], order, es, ct),
+                        "C06.fall %d %s %s %s" % (case["n"], order, es, ct)]
+            return out
         n = case["n"]
         edges = nc.expand(case)
         cuts = cut_tokens(case, nc.floyd_warshall(n, edges))
@@ -206,6 +239,17 @@ class P(Prop):
             if replies[0] == "bad-request":
                 raise ValueError("bad-request")
             return {"res": [] if replies[0] == "_" else replies[0].split(",")}
+        if case["kind"] == "rnd-float":
+            out = {"pairs": [], "lists": [], "all": []}
+            fm = lambda rep, none_as: [[none_as if x == "none" else bitsf(x) for x in r.split(",")] for r in rep.split(";")]
+            for i in range(0, len(replies), 3):
+                if "bad-request" in replies[i:i + 3]:
+                    raise ValueError("bad-request")
+                out["pairs"].append(fm(replies[i], -1.0))
+                out["lists"].append(fm(replies[i + 1], 1e300))
+                ent = [] if replies[i + 2] == "_" else [x.split(",") for x in replies[i + 2].split(";")]
+                out["all"].append(sorted([int(a), int(b), bitsf(d)] for a, b, d in ent))
+            return out
         n = case["n"]
         edges = nc.expand(case)
         cuts = cut_tokens(case, nc.floyd_warshall(n, edges))
@@ -230,6 +274,10 @@ class P(Prop):
     def compare(self, case, impl_out, model_out):
         if isinstance(impl_out, dict) and impl_out.get("err") == "err:Skipped":
             return None
+        if case["kind"] == "pq" and "res" in impl_out:
+            m = self.spec_pq(case, impl_out)     # the reference dict agrees with the model; name what differs
+            if m:
+                return m
         return Prop.compare(self, case, impl_out, model_out)
 
     # ---------------------------------------------------------------- oracle
@@ -239,7 +287,12 @@ class P(Prop):
                 return None     # not evaluated (see netcommon.time_limit); the cases that timed out are the failures
             return "the implementation failed: %s %s" % (out["err"], out.get("detail", ""))
         if case["kind"] == "pq":
-            return self.spec_pq(case, out)
+            # correspondence-only stream: the property speaks about distances, not about the queue on its own;
+            # a queue that departs from its model is reported through compare() (and the graph streams decide
+            # whether any distance is wrong)
+            return None
+        if case["kind"] == "rnd-float":
+            return self.spec_float(case, out)
         n = case["n"]
         edges = nc.expand(case)
         d = nc.floyd_warshall(n, edges)
@@ -280,6 +333,37 @@ class P(Prop):
                     if out["prep"][k][s][t] != want:
                         return "after prepare(cut=%s)%s prepared_shortest_distance(%d,%d) = %s, expected %s" % (
                             c1, "" if c2 == "-" else " and prepare(cut=%s)" % c2, s, t, out["prep"][k][s][t], want)
+        return None
+
+    def spec_float(self, case, out):
+        """float weights: distances within 1e-9 (relative) of the exact minimum over walks; sentinel / table membership exact
+        (the cut-offs of this stream lie strictly between distinct distances)"""
+        n = case["n"]
+        d = nc.floyd_warshall(n, case["edges"])
+        near = lambda got, want: close(got, float(want), 1e-9)
+        for ci, c in enumerate(case["cuts"]):
+            cv = None if c == "none" else Fraction(c)
+            for s in range(n):
+                for t in range(n):
+                    got = out["pairs"][ci][s][t]
+                    if d[s][t] is None:
+                        if got != -1:
+                            return "shortest_distance(%d,%d,cut=%s) = %r but no permitted walk exists" % (s, t, c, got)
+                    elif within(d[s][t], cv) and not near(got, d[s][t]):
+                        return "shortest_distance(%d,%d,cut=%s) = %r, the minimum over permitted walks is %r" % (s, t, c, got, float(d[s][t]))
+                for i, v in enumerate(case["order"]):
+                    got = out["lists"][ci][s][i]
+                    if d[s][v] is None:
+                        if got < 1e299:
+                            return "shortest_distance(%d,cut=%s)[node %d] = %r but the node is unreachable" % (s, c, v, got)
+                    elif within(d[s][v], cv) and not near(got, d[s][v]):
+                        return "shortest_distance(%d,cut=%s)[node %d] = %r, true distance %r" % (s, c, v, got, float(d[s][v]))
+            want = sorted([s, t] for s in range(n) for t in range(n) if within(d[s][t], cv))
+            if [e[:2] for e in out["all"][ci]] != want:
+                return "all_shortest_distances(cut=%s) has keys %s, the pairs with distance <= cut are %s" % (c, [e[:2] for e in out["all"][ci]][:8], want[:8])
+            for (s, t, v) in out["all"][ci]:
+                if not near(v, d[s][t]):
+                    return "all_shortest_distances(cut=%s)[(%d,%d)] = %r, true distance %r" % (c, s, t, v, float(d[s][t]))
         return None
 
     def spec_pq(self, case, out):
